@@ -130,11 +130,11 @@ def bundle_decisions_by_index(base_path, decisions):
         assert base_path == d.common_path[:level], (
             'decision has incorrect base path: %r vs %r' % (d.common_path, base_path))
         if len(d.common_path) > level:
-            # At least patch/patch will have common_path on a particular item
+            # At least patch/patch will have common_path on a particular item.
+            # The decision is kept as it is: its action (e.g. clear) is
+            # relative to its own common_path, and collect_diffs adjusts
+            # the patch level of the diffs where needed
             key = d.common_path[level]
-            # Wrap decision diffs in patches so common_path points to list
-            prefix = d.common_path[level:]
-            d = push_patch_decision(d, prefix)
         else:
             # Removerange or addrange will have common_path
             # on list and key only in the diff entries
